@@ -72,8 +72,8 @@ def member_init_rule(prog, res, classes=None):
                      'class has scalar members %s but no user-provided constructor' % [s['name'] for s in scal], function='', expr=q + ':noctor')
             continue
         for f in ctors:
-            if f.implicit:
-                continue
+            if f.implicit or (f.rec.get('defaulted') and (f.rec.get('copy') or f.rec.get('move'))):
+                continue      # member-wise copy / move: every member takes the source's value
             for fl in scal:
                 n += 1
                 if ctor_initialises(prog, f, q, fl['name']):
@@ -153,6 +153,43 @@ def guard_constant(f, expr, use):
                 a2 = uncast(a)
                 if a2 == want and re.match(r'^-?\d+$', b) and use in f.descendants(n['then']):
                     out = int(b)
+    # inside `case K:` groups of a switch on the same expression: the largest label of the group
+    for sw in f.all_nodes({'SwitchStmt'}):
+        if use not in f.descendants(sw['id']):
+            continue
+        kids = sw['ch']
+        body = [c for c in kids if f.nodes[c]['k'] == 'CompoundStmt']
+        cond = [c for c in kids if f.nodes[c]['k'] not in ('CompoundStmt', 'DeclStmt')]
+        if not body or not cond or uncast(R.render(cond[0])) != want:
+            continue
+        labels = []
+        found = None
+        for c in f.nodes[body[0]]['ch']:
+            m = f.nodes[c]
+            if m['k'] in ('CaseStmt', 'DefaultStmt'):
+                # a new group starts unless the previous statement fell through from labels only
+                if labels and labels[-1][1]:
+                    labels = []
+                cur = m
+                grp = []
+                while cur['k'] in ('CaseStmt', 'DefaultStmt'):
+                    if cur['k'] == 'CaseStmt':
+                        grp.append(f.nodes[f.strip(cur['ch'][0], 'all')].get('cv'))
+                    else:
+                        grp.append(None)
+                    nxt = f.nodes[cur['ch'][-1]] if cur['ch'] else None
+                    if nxt is None:
+                        break
+                    cur = nxt
+                labels.append((grp, True))
+                if use in f.descendants(c):
+                    found = [g_ for gl, _ in labels for g_ in gl]
+            elif use in f.descendants(c) and labels:
+                found = [g_ for gl, _ in labels for g_ in gl]
+            if found:
+                break
+        if found and all(x is not None for x in found):
+            out = max(int(x) for x in found)
     return out
 
 
